@@ -25,14 +25,15 @@ Lemma setitem_append h x nx c nc :
   (upd (upd (upd h c (set_parent (Some x))) x (set_children (children nx ++ [c]))) c (set_pidx (Some len)), R tt).
 Proof.
   intros Gx Gc N len. unfold node_setitem_slice.
-  cbn [miter]. unfold bind at 1. unfold bind at 1. unfold modn at 1. unfold ret at 1.
-  set (h1 := upd h c (set_parent (Some x))).
-  assert (Gx1 : get h1 x = Some nx) by (unfold h1; rewrite get_upd_other; auto).
-  unfold bind at 1. unfold getn at 1. rewrite Gx1. fold len.
+  unfold bind at 1. unfold getn at 1. rewrite Gx. fold len.
   rewrite slice_indices_end by lia.
   assert (RL : range_len len len 1 = 0%Z).
   { unfold range_len. cbn. assert ((len <? len)%Z = false) by (apply Z.ltb_ge; lia). now rewrite H. }
   rewrite RL.
+  change (1 =? 1)%Z with true. cbn [negb andb]. cbv iota.
+  cbn [miter]. unfold bind at 1. unfold bind at 1. unfold modn at 1. unfold ret at 1.
+  set (h1 := upd h c (set_parent (Some x))).
+  assert (Gx1 : get h1 x = Some nx) by (unfold h1; rewrite get_upd_other; auto).
   replace (Z.to_nat (Z.max len len) - Z.to_nat len)%nat with 0%nat by lia.
   change (1 =? 1)%Z with true. cbv iota. cbn [firstn].
   change (detach_removed x [] [c]) with (ret tt : M unit).
